@@ -236,7 +236,11 @@ impl Progs {
                 };
                 Box::new(f.build((spec_json(cap, &rows, rt, ra),), 1))
             }
-            None => Box::new(ScriptProc::new(cap, rows, if self.grouped { rt | 4 } else { rt }, nd)),
+            None => {
+                let mut sp = ScriptProc::new(cap, rows, if self.grouped { rt | 4 } else { rt }, nd);
+                sp.me = Some(p);
+                Box::new(sp)
+            }
         }
     }
 }
@@ -335,6 +339,7 @@ pub fn run(sc: &Scenario) -> String {
                     sys = Some(System::new(seed));
                 }
                 let s = sys.as_mut().unwrap();
+                crate::script_proc::CALLS.with(|c| c.borrow_mut().clear());
                 let r = std::panic::catch_unwind(std::panic::AssertUnwindSafe(|| apply_op(s, &progs, op, &mut t)));
                 match r {
                     Err(_) => {
@@ -343,6 +348,12 @@ pub fn run(sc: &Scenario) -> String {
                     }
                     Ok(ret) => {
                         writeln!(out, "{}", ret).unwrap();
+                        // API calls issued by the handlers during this call (not compared with the model: X lines)
+                        crate::script_proc::CALLS.with(|c| {
+                            for l in c.borrow_mut().drain(..) {
+                                writeln!(out, "{}", l).unwrap();
+                            }
+                        });
                         let tr_len = {
                             let lg = s.logger();
                             let tr = lg.trace();
